@@ -11,7 +11,7 @@ Definition env_ok (e : env) : Prop := unbech_wf (e_unbech e).
 Lemma exec_base_aol_frame e c m c' a :
   exec_base e c m = Ok (c', a) -> (forall am, m <> BAol am) -> c_aol c' = c_aol c.
 Proof.
-  intros H Hn. destruct m as [am|dm|pm|f t amt|f t amt et|g r u ex|g r u]; simpl in H.
+  intros H Hn. destruct m as [am|dm|pm|f t amt|f t amt et|g r u ex|g r u|f amt outs]; simpl in H.
   - exfalso. apply (Hn am). reflexivity.
   - destruct dm as [did [doc|] vmid sg from|did [doc|] vmid sg from|did vmid sg from]; simpl in H; try discriminate;
       match type of H with bind ?x _ = _ => destruct x; simpl in H; try discriminate end;
@@ -29,6 +29,9 @@ Proof.
     destruct (match ex with Some t => _ | None => false end); try discriminate. inversion H; reflexivity.
   - destruct (e_unbech e g), (e_unbech e r); try discriminate.
     destruct (find_grant _ _ _ _); try discriminate. inversion H; reflexivity.
+  - destruct (e_unbech e f); try discriminate. destruct (unbech_outs _ _); try discriminate.
+    destruct (existsb _ _); try discriminate.
+    destruct (multi_send _ _ _ _ _); try discriminate. inversion H; reflexivity.
 Qed.
 
 Lemma ante_aol_frame e c t c' : ante e c t = Some c' -> c_aol c' = c_aol c /\ c_did c' = c_did c /\ c_grants c' = c_grants c.
@@ -74,7 +77,7 @@ Proof.
   - intros a b0 c0 H1 H2 Ha. destruct (H1 Ha) as [Hb P1]. destruct (H2 Hb) as [Hc P2].
     split; [exact Hc | eapply records_preserved_trans; eauto].
   - intros e c0 m c' acks He _ Hx Ha.
-    destruct m as [am|dm|pm|f t amt|f t amt et|g r u ex|g r u];
+    destruct m as [am|dm|pm|f t amt|f t amt et|g r u ex|g r u|f amt outs];
       try (apply (R_aol_same c0 c'); [|exact Ha]; eapply exec_base_aol_frame; [exact Hx | intros am; discriminate]).
     simpl in Hx. eapply exec_aol_inv; eauto.
   - intros e c0 t c' _ Hx. apply R_aol_same. apply (ante_aol_frame e c0 t c' Hx).
@@ -129,7 +132,7 @@ Theorem writers_change_only_by_owner e c m c' acks ow t w :
     ((exists mo d, m = BAol (AAddWriter t mo d ws os)) \/ m = BAol (ADeleteWriter t ws os)).
 Proof.
   intros He Hi Hx Hne.
-  destruct m as [am|dm|pm|f tt amt|f tt amt et|g r u ex|g r u];
+  destruct m as [am|dm|pm|f tt amt|f tt amt et|g r u ex|g r u|f amt outs];
     try (exfalso; apply Hne; rewrite (exec_base_aol_frame e c _ c' acks Hx); [reflexivity | intros am; discriminate]).
   simpl in Hx.
   destruct am as [t0 d o|t0 mo d ws os|t0 ws os|t0 k v ws os f]; simpl in Hx;
@@ -166,7 +169,7 @@ Theorem topic_created_under_signer e c m c' acks ow t :
   exists d os, m = BAol (ACreateTopic t d os) /\ e_unbech e os = Some ow /\ signers_base e m = Ok [ow].
 Proof.
   intros He Hi Hx Hne.
-  destruct m as [am|dm|pm|f tt amt|f tt amt et|g r u ex|g r u];
+  destruct m as [am|dm|pm|f tt amt|f tt amt et|g r u ex|g r u|f amt outs];
     try (exfalso; apply Hne; rewrite (exec_base_aol_frame e c _ c' acks Hx); [reflexivity | intros am; discriminate]).
   simpl in Hx.
   destruct am as [t0 d o|t0 mo d ws os|t0 ws os|t0 k v ws os f]; simpl in Hx;
